@@ -536,9 +536,45 @@ class ExprMixin:
             # in-place mutation of a run list owned by a pre-existing FmtStr: frame violation (C13-F1)
             self.oblige(st, "frame", z3.BoolVal(False), label=f"in-place {what} on an operand's run list")
 
+    def _char_list_hint(self, ref, st):
+        """a local list that the sidecar declares to be a list of 1-character strings (spec.types name -> 'char')"""
+        for nm, v in st.env.items():
+            if isinstance(v, Ref) and v.oid == ref.oid:
+                for spec in (self.contract.loops or {}).values():
+                    if (getattr(spec, "types", None) or {}).get(nm) == "char":
+                        return True
+        return False
+
+    def _to_char_list(self, lv, st):
+        """concrete list of 1-character strings -> the string of their concatenation"""
+        acc = z3.Empty(T.SI)
+        for x in lv.items:
+            if not (isinstance(x, (str, Sym)) and (isinstance(x, str) or x.tag == "str")):
+                raise Unsupported("non-string element in a character list")
+            xt = str_term(x)
+            if not z3.is_true(z3.simplify(z3.Length(xt) == 1)):
+                raise Unsupported("element of a character list is not known to be one character")
+            new = z3.Concat(acc, xt)
+            st.fact(Lemmas.chars_unit(xt, xt[0]), Lemmas.chars_concat(new, acc, xt))
+            acc = new
+        st.fact(T.BASEF(z3.Empty(T.SI)) == z3.Empty(T.SI), T.WCS(z3.Empty(T.SI)) == 0)
+        lv.items, lv.tag, lv.t, lv.origin = None, "char", acc, None
+
     def list_append(self, ref, x, st):
         lv = st.deref(ref)
         self.mutate_check(lv, st, "append")
+        if lv.items is not None and isinstance(x, Sym) and x.tag == "str" and self._char_list_hint(ref, st):
+            self._to_char_list(lv, st)
+        if lv.items is None and lv.tag == "char":
+            if not (isinstance(x, (str, Sym)) and (isinstance(x, str) or x.tag == "str")):
+                raise Unsupported(f"append of {x!r} to a character list")
+            xt = str_term(x)
+            if not self.decide(z3.Length(xt) == 1, st):
+                raise Unsupported("append of a string that is not one character to a character list")
+            new = z3.Concat(lv.t, xt)
+            st.fact(Lemmas.chars_unit(xt, xt[0]), Lemmas.chars_concat(new, lv.t, xt))
+            lv.t, lv.origin = new, None
+            return
         if lv.items is not None:
             lv.items.append(x)
             return
@@ -554,6 +590,19 @@ class ExprMixin:
     def list_extend(self, ref, other, st):
         lv = st.deref(ref)
         self.mutate_check(lv, st, "extend")
+        if (isinstance(other, str) or (isinstance(other, Sym) and other.tag == "str")):
+            # list.extend(string): one element per character
+            if lv.items is not None and self._char_list_hint(ref, st):
+                self._to_char_list(lv, st)
+            if lv.items is None and lv.tag == "char":
+                ot = str_term(other)
+                new = z3.Concat(lv.t, ot)
+                if isinstance(other, Sym) and other.origin and other.origin[0] == "spaces":
+                    st.fact(Lemmas.chars_spaces(ot, other.origin[1]))
+                st.fact(Lemmas.chars_concat(new, lv.t, ot))
+                lv.t, lv.origin = new, None
+                return
+            raise Unsupported("extend of a list with a string")
         if isinstance(other, Ref):
             ov = st.deref(other)
         elif isinstance(other, tuple):
